@@ -267,6 +267,17 @@ def one_history(hist):
                 return [("stale_or_wrong_view", n, [s.get("m", "as_dict") for s in hist[:n]], pr[:2])]
             if prof.properties is not prof.as_dict() and prof.properties != prof.as_dict():
                 return [("properties_alias_differs", n)]
+            # looking up a path the profile does not have is a KeyError and leaves no trace in the view
+            for absent in ("http-post.uri.absent", "no.such.block"):
+                try:
+                    prof.properties[absent]
+                    return [("absent_path_found", n, absent)]
+                except KeyError:
+                    pass
+                except Exception as ex:  # noqa: BLE001
+                    return [("absent_path_lookup_raised", n, repr(ex)[:100])]
+            if any(a in prof.as_dict() for a in ("http-post.uri.absent", "no.such.block")):
+                return [("absent_path_left_in_view", n)]
             ob = core.guarded(lambda: (copy.deepcopy(other_prof.as_dict()), copy.deepcopy(empty_prof.as_dict())), seconds=60)
             if ob[0] != "ok" or compare(ob[1][0], other_entries) or ob[1][1]:
                 return [("view_of_another_profile_disturbed", n, str(ob)[:200])]
